@@ -100,8 +100,10 @@ type Case struct {
 
 // ---------------------------------------------------------------- generation
 
-func genValue(t *rapid.T, zctx *zed.Context, i int) zed.Value {
-	k := rapid.IntRange(0, 40).Draw(t, "k")
+// Batch b draws its keys from [100b, 100b+20], so objects of different batches have disjoint key ranges (they
+// form separate scan partitions and a corrupted later object fails only after earlier ones were streamed).
+func genValue(t *rapid.T, zctx *zed.Context, b int) zed.Value {
+	k := 100*b + rapid.IntRange(0, 20).Draw(t, "k")
 	s := rapid.SampledFrom([]string{"a", "b", "c", "d d", "é", ""}).Draw(t, "s")
 	v := rapid.IntRange(0, 3).Draw(t, "v")
 	var text string
@@ -137,8 +139,8 @@ func genValue(t *rapid.T, zctx *zed.Context, i int) zed.Value {
 }
 
 // uniform batches (one record type, primitive fields) keep csv bodies and csv responses well-formed
-func genUniform(t *rapid.T, zctx *zed.Context) zed.Value {
-	k := rapid.IntRange(0, 40).Draw(t, "k")
+func genUniform(t *rapid.T, zctx *zed.Context, b int) zed.Value {
+	k := 100*b + rapid.IntRange(0, 20).Draw(t, "k")
 	s := rapid.SampledFrom([]string{"a", "b", "c", "d d", "q\"uote", "x,y"}).Draw(t, "s")
 	v := rapid.IntRange(0, 3).Draw(t, "v")
 	val, err := zson.ParseValue(zctx, fmt.Sprintf(`{k:%d,s:%q,v:%d}`, k, s, v))
@@ -161,12 +163,12 @@ var dataQueries = []struct {
 	{"from {P}@{B} | count()", true},
 	{"from {P}@{B} | put x:=k+1", false},
 	{"from {P}@{B} | yield s", false},
-	{"from {P}@{B} | k >= 10", false},
+	{"from {P}@{B} | k >= 105", false},
 	{"from {P}@{B} | cut k,s", false},
 	{"from {P}@{B} | summarize c:=count(), m:=max(v)", true},
 	{"from {P}@{B} | count() by s | sort this", true},
-	{"from {P}@{B} | k >= 10 | sort this", true},
-	{"from {P}@{B} | k < 20", false},
+	{"from {P}@{B} | k >= 110 | sort this", true},
+	{"from {P}@{B} | k < 120", false},
 	{"from {P}@{B} | s == \"a\" or v == 2 | sort this", true},
 	{"from {P}@{B} | sort this | head 3", true},
 	{"from {P}@{B} | put x:=k+1 | sort this", true},
@@ -206,11 +208,11 @@ var headQueries = []struct {
 }{
 	{"sort this", true},
 	{"count()", true},
-	{"k > 5 | sort this", true},
+	{"k > 105 | sort this", true},
 	{"pass", false},
 }
 
-var preds = []string{"k < 10", "k >= 20", "k == 5", "s == \"a\"", "v == 1", "k > 100", "k <= 40", "v >=", "nosuch(k)", "k < 10 | count()"}
+var preds = []string{"k < 10", "k >= 110", "k == 105", "s == \"a\"", "v == 1", "k > 200", "k <= 1000", "k < 115", "v >=", "nosuch(k)", "k < 10 | count()"}
 
 var formats = []string{"zng", "zson", "zjson", "json", "csv"}
 
@@ -256,14 +258,14 @@ func genCase(t *rapid.T) Case {
 		uniform := i == 0 || rapid.Bool().Draw(t, "uniform")
 		for j := 0; j < n; j++ {
 			if uniform {
-				s.Vals = append(s.Vals, genUniform(t, zctx))
+				s.Vals = append(s.Vals, genUniform(t, zctx, i))
 			} else {
-				s.Vals = append(s.Vals, genValue(t, zctx, j))
+				s.Vals = append(s.Vals, genValue(t, zctx, i))
 			}
 		}
 		c.Batches = append(c.Batches, s)
 	}
-	nops := rapid.IntRange(4, maxOps).Draw(t, "nops")
+	nops := rapid.IntRange(5, maxOps).Draw(t, "nops")
 	for i := 0; i < nops; i++ {
 		op := Op{
 			Pool:   rapid.IntRange(0, 3).Draw(t, "pool"),
@@ -272,7 +274,7 @@ func genCase(t *rapid.T) Case {
 		k := rapid.IntRange(0, 49).Draw(t, "opkind")
 		if i == 0 {
 			k = 0
-		} else if i == 1 {
+		} else if i <= 2 {
 			k = 5
 		}
 		switch {
@@ -288,8 +290,12 @@ func genCase(t *rapid.T) Case {
 			op.Batch = rapid.IntRange(0, nb-1).Draw(t, "batch")
 			op.Via = rapid.SampledFrom([]string{"api", "api", "zng", "zson", "zjson", "json", "csv", "vng", "auto"}).Draw(t, "via")
 			op.Meta = rapid.IntRange(0, 3).Draw(t, "meta") == 0
-			switch rapid.IntRange(0, 9).Draw(t, "bad") {
-			case 0:
+			bad := rapid.IntRange(0, 19).Draw(t, "bad")
+			if i <= 2 {
+				bad = 9
+			}
+			switch bad {
+			case 0, 1:
 				if op.Via != "api" {
 					op.Bad = "tail"
 					op.Cut = rapid.IntRange(2, 8).Draw(t, "cut")
@@ -298,7 +304,7 @@ func genCase(t *rapid.T) Case {
 					op.Bad = "reader"
 					op.Cut = rapid.IntRange(0, 3).Draw(t, "cut")
 				}
-			case 1:
+			case 2:
 				op.Bad = "meta"
 			}
 		case k <= 17:
@@ -328,6 +334,9 @@ func genCase(t *rapid.T) Case {
 			op.Dup = rapid.IntRange(0, 7).Draw(t, "dup") == 0
 		case k == 29:
 			op.Kind = "dropbranch"
+			if rapid.IntRange(0, 5).Draw(t, "dropmain") == 0 {
+				op.Pick = []int{0} // allow dropping main
+			}
 		case k <= 31:
 			op.Kind = "merge"
 			op.Other = rapid.IntRange(0, 3).Draw(t, "into")
@@ -339,6 +348,10 @@ func genCase(t *rapid.T) Case {
 			op.Dup = rapid.IntRange(0, 5).Draw(t, "dup") == 0
 		case k == 34:
 			op.Kind = "droppool"
+			if rapid.IntRange(0, 2).Draw(t, "reallydrop") != 0 {
+				op.Kind = "query"
+				genQuery(t, &op)
+			}
 		case k <= 38:
 			op.Kind = "lateerr"
 			op.Pick = []int{rapid.SampledFrom([]int{0, 1, 2, 7, 7, 7}).Draw(t, "pick")}
@@ -1000,6 +1013,7 @@ func (r *runner) compareQuery(step int, what string, head *lakeparse.Commitish, 
 		}
 		return fail("C19/query/error-only-remote", "step %d (%s): %q succeeds directly (%d values) but fails through the service: %v", step, what, text, len(d.vals), s.err)
 	}
+	r.debugf("step %d %s %q: direct %d values %d batches err=%v | served %d values err=%v", step, what, text, len(d.vals), d.batches, d.err, len(s.vals), s.err)
 	if d.err != nil {
 		if d.early {
 			r.o.Label("query:compile-error-both")
@@ -1015,6 +1029,10 @@ func (r *runner) compareQuery(step int, what string, head *lakeparse.Commitish, 
 				return fail("C19/query/output-differs", "step %d (%s): %q: direct and remote results differ: %s", step, what, text, diff)
 			}
 			r.o.Label("query:unordered-reordered")
+		}
+		r.o.Label("query:ok")
+		if len(d.vals) == 0 {
+			r.o.Label("query:ok-empty")
 		}
 	}
 	for _, raw := range raws {
@@ -1144,10 +1162,20 @@ func (r *runner) both(step int, kind string, f func(si int, l lakeapi.Interface)
 	}
 	if e0 != nil {
 		r.o.Label("both-fail:" + kind)
+		r.debugf("step %d %s: both fail: direct %v | served %v", step, kind, e0, e1)
 		return false, nil
 	}
 	r.o.Label("ok:" + kind)
+	r.debugf("step %d %s: ok", step, kind)
 	return true, nil
+}
+
+var debug = os.Getenv("VERIF_C19_DEBUG") != ""
+
+func (r *runner) debugf(format string, args ...any) {
+	if debug {
+		fmt.Fprintf(os.Stderr, format+"\n", args...)
+	}
 }
 
 func (r *runner) pickObjects(st *lakeState, p *mpool, branch string, pick []int) (ids []ksuid.KSUID, objs []objState) {
@@ -1281,7 +1309,7 @@ func (r *runner) step(step int, op Op, before [2]*lakeState) *vt.Failure {
 			r.serviceMutations++
 		}
 	case "dropbranch":
-		if branch == "main" && op.Branch%2 == 0 {
+		if branch == "main" && op.Pick == nil {
 			return nil // mostly keep main
 		}
 		e0 := r.sides[0].api.RemoveBranch(ctx, p.id[0], branch)
@@ -1626,6 +1654,7 @@ func (r *runner) load(step int, op Op, p *mpool, branch string, before [2]*lakeS
 	}
 	if e0 != nil {
 		r.o.Label("both-fail:load-raw")
+		r.debugf("step %d load-raw %s bad=%q: both fail: direct %v | served %v", step, via, op.Bad, e0, e1)
 		return nil
 	}
 	if len(resp.Warnings) > 0 {
